@@ -1,17 +1,20 @@
 // Package c01: every accepted write gets exactly one in-order joined response.
 //
 // (a) correspondence: one real packet.Writer and up to 5 real packet.Readers driven from one
-//     goroutine through histories over {link, unlink, write, answer, closeR, deliverDrop, closeW};
-//     every step's return value, the packets pushed into the writer's pump during the step
-//     (observed synchronously by an inbound hook) and the packets handed to readers are compared
-//     with Uniflow.Writer.step on the same history (driver `c01`); histories outside the
-//     re-link-with-pending class are also compared with the id-keyed specification (`c01s`).
-//     The goroutines Reader.Close spawns are parked at the verif yield hook at the top of
-//     (*Writer).receive and released one per `drop r` step.
+//
+//	goroutine through histories over {link, unlink, write, answer, closeR, deliverDrop, closeW};
+//	every step's return value, the packets pushed into the writer's pump during the step
+//	(observed synchronously by an inbound hook) and the packets handed to readers are compared
+//	with Uniflow.Writer.step on the same history (driver `c01`); histories outside the
+//	re-link-with-pending class are also compared with the id-keyed specification (`c01s`).
+//	The goroutines Reader.Close spawns are parked at the verif yield hook at the top of
+//	(*Writer).receive and released one per `drop r` step.
+//
 // (b) property oracle: a reference bookkeeping over the harness's own write log (write ids,
-//     who accepted, who answered what for which write) predicts count, order and content of
-//     the responses; the real responses – as seen by the hook and as read from Receive() –
-//     are checked against it.
+//
+//	who accepted, who answered what for which write) predicts count, order and content of
+//	the responses; the real responses – as seen by the hook and as read from Receive() –
+//	are checked against it.
 package c01
 
 import (
@@ -178,6 +181,7 @@ type sim struct {
 
 	streamFail string // first discrepancy between Receive()/Read() and the hooks
 	closeLost  int    // responses emitted by Close that never came out of Receive()
+	closeSeen  int    // responses emitted by Close that did
 	timedOut   bool
 }
 
@@ -373,6 +377,8 @@ func (s *sim) exec(o op) (out string, emitted []string, panicked bool) {
 			}
 			if q != p {
 				s.fail("%s: Receive() gave %s where the hook saw %s", o.line(), canon(q), canon(p))
+			} else if o.kind == "closew" {
+				s.closeSeen++
 			}
 		case <-time.After(wait):
 			s.timedOut = true
@@ -586,6 +592,7 @@ type result struct {
 	accepted     int
 	responses    int
 	closeLost    int
+	closeSeen    int // responses pushed by Writer.Close that did come out of Receive()
 }
 
 func replayOf(lines, impls []string) string {
@@ -650,6 +657,7 @@ func runHistory(n int, next func(x *ref, s *sim, i int) (op, bool)) (res result)
 		oracleFail("close-discards-buffered", fmt.Sprintf("%d responses pushed by Writer.Close never came out of Receive()", s.closeLost))
 	}
 	res.closeLost = s.closeLost
+	res.closeSeen = s.closeSeen
 	if res.fail != nil {
 		res.fail.Replay = replayOf(res.lines, res.impls)
 	}
@@ -769,7 +777,7 @@ func Run(c *lib.Ctx) {
 		"every public method of Writer/Reader is one atomic step (they run under the object's mutex); the harness drives them from one goroutine",
 		"the goroutines spawned by Reader.Close run (*Writer).receive in an arbitrary order; all carry the same packet and reader, so the model keeps a count and the harness releases them one per `drop` step through the verif yield hook",
 		"payloads are opaque to Join (only error / None / other is inspected): answers are int64 ids, errors are identified by their message, errors.Join by the newline-separated messages",
-		"responses are observed where they are pushed into the writer's pump (inbound hook) and re-read from Receive() after every step; responses pushed by Writer.Close itself can be discarded by the pump (DESIGN.md §7 row 7, a C03/C05 matter) and are only counted",
+		"responses are observed where they are pushed into the writer's pump (inbound hook) and re-read from Receive() after every step; the dropped responses pushed by Writer.Close itself can be discarded by the pump (known finding close-discards-buffered, DESIGN.md §7 row 7; the closed channel stands for them, see C03): those that do not arrive are counted and attributed to the finding, those that do are checked",
 	}
 	c.Trusted = []string{"pkg/packet verif hook VerifReceive (yield at the top of (*Writer).receive)", "Go scheduler/channels/mutexes (modelled as atomic steps)"}
 
@@ -778,7 +786,7 @@ func Run(c *lib.Ctx) {
 	spec := &lib.Script{}
 	var fails []lib.OracleFail
 	seen := map[string]bool{}
-	closeLost, closeCases := 0, 0
+	closeLost, closeCases, closeChecked := 0, 0, 0
 
 	record := func(res result, origin string) {
 		key := ""
@@ -804,6 +812,10 @@ func Run(c *lib.Ctx) {
 		if res.closeLost > 0 {
 			closeLost += res.closeLost
 			closeCases++
+		}
+		closeChecked += res.closeSeen
+		if res.closeSeen > 0 {
+			c.Hit("closew-with-pending-responses-delivered")
 		}
 		model.Begin()
 		for i, l := range res.lines {
@@ -888,7 +900,7 @@ func Run(c *lib.Ctx) {
 		rec()
 		c.Extra["exhaustive"] = fmt.Sprintf("all %d histories `link 0 · x` with |x| ≤ %d over 2 readers and the 12-symbol alphabet", count, k)
 	}
-	c.Extra["close_discards"] = fmt.Sprintf("%d responses pushed by Writer.Close were not delivered by Receive() in %d histories (pump drops its buffer when `in` closes)", closeLost, closeCases)
+	c.Extra["close_discards"] = fmt.Sprintf("%d responses pushed by Writer.Close were not delivered by Receive() in %d histories (known finding close-discards-buffered: the pump drops its buffer when `in` closes); %d responses pushed by Close did arrive and were checked", closeLost, closeCases, closeChecked)
 
 	ms, err := c.RunModel("c01", model)
 	if err != nil {
